@@ -267,7 +267,7 @@ type tierSpec struct {
 }
 
 func specFor(prop, tier string) tierSpec {
-	s := tierSpec{Runs: 24000, Batch: 250, WallCap: 70 * time.Second, Seeds: 1}
+	s := tierSpec{Runs: 40000, Batch: 250, WallCap: 75 * time.Second, Seeds: 1}
 	if tier == "thorough" {
 		s = tierSpec{Runs: 1200000, Batch: 500, WallCap: 12 * time.Minute, Seeds: 3}
 	}
@@ -777,7 +777,21 @@ func writeEvidence(prop, tier, level string, seed int64, a *aggT, wall, buildS f
 }
 
 var ruleText = map[string]string{
-	"C04": "each evaluation is one simulated run (plan = frames + segmentation, schedule = seeded picks) or one enumerated cut position; non-trivial = some frame is split across reads or shares a read with another frame; distinct = distinct (plan hash, schedule hash) pairs",
+	"C03": "one evaluation = one simulated run of 1-2 connections with parse-everything handlers (4-34 bodies from well-formed / inconsistent / mutated pools, reused receivers, random segmentation); non-trivial = at least four handler parses were compared differentially; distinct = distinct (plan hash, schedule hash) pairs",
+	"C04": "one evaluation = one simulated run (plan = frames + segmentation, schedule = seeded picks) or one enumerated cut position; non-trivial = some frame is split across reads or shares a read with another frame; distinct = distinct (plan hash, schedule hash) pairs",
+	"C05": "one evaluation = one simulated run with 1-4 sub-packaged transfers (permuted, duplicated, impossible numbers, interleaved); non-trivial = a transfer of at least two packets was delivered complete; distinct = distinct (plan hash, schedule hash) pairs",
+	"C06": "one evaluation = one simulated conversation (1-4 connections) or one serial wrap-around run; non-trivial = the server wrote at least two frames; distinct = distinct (plan hash, schedule hash) pairs",
+	"C09": "one evaluation = one simulated run with every delivered message retained; non-trivial = some message stayed retained across at least one later read on its connection; distinct = distinct (plan hash, schedule hash) pairs",
+	"C10": "one evaluation = one simulated run of both servers with hostile and well-behaved connections, or one enumerated fault point (FIN/RST of the hostile connection at step k of a FIFO baseline); non-trivial = a hostile connection delivered data or closed while a well-behaved one was being served; distinct = distinct (plan hash, schedule hash) pairs",
+	"C11": "one evaluation = one simulated history of joins, leaves, reconnects and sends over 2-3 keys, checked with porcupine; non-trivial = two connections contended for one key (a join was refused); distinct = distinct (plan hash, schedule hash) pairs",
+	"C12": "one evaluation = one simulated run with 1-6 concurrent SendActiveMessage calls against reactive terminal models; non-trivial = at least two calls were written and returned; distinct = distinct (plan hash, schedule hash) pairs",
+	"C13": "one evaluation = one simulated run with a disconnect at a seeded point, or one enumerated fault point (FIN/RST/write failure at step k of a FIFO baseline); non-trivial = the disconnect happened while at least one call was in flight; distinct = distinct (plan hash, schedule hash) pairs",
+	"C14": "one evaluation = one simulated run on the fake clock with missing packets, idle gaps around 5 s / 60 s and resupply; non-trivial = the server wrote at least one 0x8003; distinct = distinct (plan hash, schedule hash) pairs",
+	"C15": "one evaluation = one simulated attachment session set (1-2 connections, 1-4 files, permuted and re-sent data packets, random stream cuts); non-trivial = at least one file was reported complete; distinct = distinct (plan hash, schedule hash) pairs",
+	"C16": "one evaluation = one simulated attachment session with withheld data packets and one or two resupply rounds; non-trivial = at least one 0x9212 asked for retransmission; distinct = distinct (plan hash, schedule hash) pairs",
+	"C18": "one evaluation = one seeded deterministic schedule of a C06/C09/C11/C12/C13/shared-header scenario executed under the race detector; non-trivial = at least one connection and more than 50 scheduler steps; distinct = distinct (plan hash, schedule hash) pairs",
+	"C19": "one evaluation = one simulated upload set with hostile announced names against the default file handler on simfs; non-trivial = the server created at least one file other than its log; distinct = distinct (plan hash, schedule hash) pairs",
+	"C20": "one evaluation = one simulated run in which 1-20 frames generated by the terminal simulator per connection are answered by the live server; non-trivial = the server wrote at least two replies that were compared with ExpectedReply; distinct = distinct (plan hash, schedule hash) pairs",
 }
 
 func cmdReplay(args []string) {
